@@ -293,15 +293,27 @@ PROBES = [
 ]
 
 
+# strings longer than 32 characters: only meaningful with the larger string-storage setting.  A scalar
+# and an array of one name are two variables; every one of them gets the storage asked for.
+L40 = "ABCDEFGHIJKLMNOPQRSTUVWXYZ0123456789ABCD"
+PROBES_80 = [
+    f'10 N$="{L40}":PRINT N$;LEN(N$):PRINT RIGHT$(N$,3)',
+    f'10 DIM N$(3)\n20 N$="{L40}":N$(1)="{L40}X"\n30 PRINT N$;LEN(N$)\n40 PRINT N$(1);LEN(N$(1))',
+    f'10 DIM AB$(2,2),Q$\n20 AB$="{L40}":Q$=AB$+"12":AB$(2,2)=Q$+"3"\n30 PRINT LEN(AB$);LEN(Q$);LEN(AB$(2,2));MID$(AB$(2,2),38,4)',
+    f'10 M$(4)="{L40}":M$="{L40}Y":PRINT LEN(M$(4));LEN(M$);RIGHT$(M$,2)',
+    f'10 READ N$,N$(2):PRINT LEN(N$);LEN(N$(2))\n20 DATA {L40},"{L40}Z"',
+]
+
+
 def cases(tier):
     r = rng("sem-suite")
-    progs = [(p, "probe") for p in PROBES]
+    progs = [(p, "probe") for p in PROBES] + [(p, "probe80") for p in PROBES_80]
     for _ in range(200 if tier != "thorough" else 2500):
         progs.append((SGen(r).program(), "generated"))
     out = []
     for k, (p, kind) in enumerate(progs):
-        for flags in (FLAGS if kind == "probe" else [r.choice(FLAGS)]):
-            for storage in ([32, 80] if kind == "probe" or r.random() < 0.25 else [32]):
+        for flags in (FLAGS if kind != "generated" else [r.choice(FLAGS)]):
+            for storage in ([80] if kind == "probe80" else [32, 80] if kind == "probe" or r.random() < 0.25 else [32]):
                 o = {"flags": flags, "storage": storage, "procname": "", "sizes": []}
                 out.append({"fmt": "sem", "kind": kind, "text": p, "opts": o,
                             "req": f"sem {flags} {storage} " + hexs(p.encode())})
